@@ -221,7 +221,7 @@ func runCheck(cmd, prop, tier, repo, root, only string, keep, verbose, writeExpe
 	}
 	reports := make([]*OblReport, len(all))
 	var wg sync.WaitGroup
-	sem := make(chan struct{}, 8)
+	sem := make(chan struct{}, 12)
 	for i, o := range all {
 		wg.Add(1)
 		go func(i int, o *Obligation) {
@@ -277,7 +277,7 @@ func runCheck(cmd, prop, tier, repo, root, only string, keep, verbose, writeExpe
 			sem <- struct{}{}
 			defer func() { <-sem }()
 			o := &Obligation{Name: r.Name + "#vacuity:requires", Decls: c.preDecls, PC: c.prePC, Goal: "", Ctx: c}
-			best, _ := discharge(buildQuery(o, false, false), smtDir, o.Name, 5, false)
+			best := quickSolve(buildQuery(o, false, false), smtDir, o.Name, 3)
 			vmu.Lock()
 			vacs = append(vacs, vac{r.Name, "requires-satisfiable", best.Result})
 			if best.Result == "unsat" {
@@ -289,12 +289,11 @@ func runCheck(cmd, prop, tier, repo, root, only string, keep, verbose, writeExpe
 			reach := "none"
 			for ei, pc := range c.exitPCs {
 				eo := &Obligation{Name: fmt.Sprintf("%s#vacuity:exit%d", r.Name, ei), Decls: len(c.decls), PC: pc, Goal: "", Ctx: c}
-				b2, _ := discharge(buildQuery(eo, false, false), smtDir, eo.Name, 5, false)
+				// one solver, short limit: anything but `unsat` means the exit is not provably dead
+				b2 := quickSolve(buildQuery(eo, false, false), smtDir, eo.Name, 3)
 				if b2.Result != "unsat" {
 					reach = b2.Result
-					if b2.Result == "sat" {
-						break
-					}
+					break
 				}
 			}
 			vmu.Lock()
